@@ -239,6 +239,8 @@ Definition first_bad (f : N -> bool) : option N := find (fun b => negb (f b)) by
 (* which clause of codec_ok fails, and where: (clause number, byte or item) *)
 Definition codec_ok_witness (C : codec) : option (N * N) :=
   if negb (Nat.leb 1 (c_bits C) && Nat.leb (c_bits C) 8) then Some (1, N.of_nat (c_bits C))
+  else if negb (Nat.eqb (length (c_try_bits C)) 256 && Nat.eqb (length (c_try_ascii C)) 256)
+  then Some (7, 0)
   else if negb (nodupb (c_items C)) then Some (2, 0)
   else match find (fun x => negb (item_okb C x)) (c_items C) with
   | Some x => Some (3, x)
